@@ -233,6 +233,13 @@ impl<TStdlib: Stdlib, TStdIn: Input, TStdOut: Printer, TLpt1: Printer> Interpret
                 },
                 Err(e) => {
                     self.last_error_code = Some(e.err().get_code());
+                    // errors inside an error handling routine are not trapped:
+                    // the routine stays disabled until it executes RESUME
+                    if matches!(ctx.error_handler, ErrorHandler::Address(_))
+                        && self.last_error_address.is_some()
+                    {
+                        return Err(e.with_stacktrace(&mut self.stacktrace));
+                    }
                     if ctx.error_handler != ErrorHandler::None {
                         // the error is handled: abandon what the failing statement had started
                         let call_depth = self.return_address_stack.len();
